@@ -41,6 +41,7 @@ func runC05(c *Config, r *Report) {
 	c05R8(ic, r, "R05.8")
 	c05R9(ic, r)
 	c05R10(ic, r)
+	c05R11(ic, r)
 	c05R3(ic, r)
 	c05R5(ic, r)
 	// R05.4: method resolution and receiver binding happen per call. The run-time closures keep
@@ -641,5 +642,64 @@ func c05R10(ic *IC, r *Report) {
 	}
 	if n < 4 {
 		r.Errorf("R05.10: only %d closures of typeAssert reporting a status found", n)
+	}
+}
+
+func init() {
+	ruleText["R05.11"] = "the generator of method values binds the receiver when the method value is evaluated: its run-time closure evaluates the receiver and records a copy of it (a receiver record whose value originates in reflect.New(T).Elem()) for methods declared with a value receiver; the receiver node alone would be evaluated at each later call"
+}
+
+// c05R11: found D80 (g := c.get; c.n = 5; g() returned 5).
+func c05R11(ic *IC, r *Report) {
+	info := ic.Info
+	fi := ic.fn(r, "getMethod")
+	if fi == nil {
+		return
+	}
+	recvT, _ := ic.Pk.Types.Scope().Lookup("receiver").(*types.TypeName)
+	n := 0
+	for k, fl := range (&c02ctx{ic: ic}).closuresOf(fi) {
+		n++
+		// a composite literal receiver{val: X} (or &receiver{...}) with X a local assigned from reflect.New(...).Elem()
+		ok := false
+		ast.Inspect(fl.Body, func(m ast.Node) bool {
+			cl, isCl := m.(*ast.CompositeLit)
+			if !isCl || recvT == nil {
+				return true
+			}
+			if t := info.TypeOf(cl); t == nil || !types.Identical(t, recvT.Type()) {
+				return true
+			}
+			for _, e := range cl.Elts {
+				kv, isKV := e.(*ast.KeyValueExpr)
+				if !isKV {
+					continue
+				}
+				if id := identOf(kv.Key); id == nil || id.Name != "val" {
+					continue
+				}
+				if vid := identOf(kv.Value); vid != nil {
+					obj := info.ObjectOf(vid)
+					ast.Inspect(fl.Body, func(q ast.Node) bool {
+						if as, isAs := q.(*ast.AssignStmt); isAs && len(as.Lhs) == len(as.Rhs) {
+							for i, l := range as.Lhs {
+								if lid := identOf(l); lid != nil && info.ObjectOf(lid) == obj {
+									if c, isC := unparen(as.Rhs[i]).(*ast.CallExpr); isC && isCallTo(info, c, "reflect.Value.Elem") && len(callsIn(info, c, true, "reflect.New")) > 0 {
+										ok = true
+									}
+								}
+							}
+						}
+						return true
+					})
+				}
+			}
+			return true
+		})
+		r.Check(ok, "R05.11", fmt.Sprintf("getMethod/closure#%d/receiver-bound-at-evaluation", k+1), ic.pos(fl.Pos()), "the method value records a copy of its receiver",
+			"the run-time closure of getMethod hands the receiver *node* to the function value: the receiver expression is evaluated again at each call, so g := c.get; c.n = 5; g() sees n == 5 where compiled Go bound a copy of c when g was evaluated (1)")
+	}
+	if n == 0 {
+		r.Errorf("R05.11: no run-time closure found in getMethod")
 	}
 }
